@@ -315,6 +315,51 @@ theorem C10_415 (sc : Scenario) (env : Env) (h1 : sc.inj ≠ .router) (h2 : sc.i
   simp [failResp, hw]
   decide
 
+/-! ### a unary target that answers first and fails afterwards -/
+
+/-- **Message first, then failure (unary).** If the target sends its response message and then ends the call with
+    an error (non-OK status in the trailers, transport error), the held-back message is NOT sent: the call is
+    rendered as a failure of origin `targetStatus` with exactly that error — `writeError` on a response that has
+    not started — for every error value, transcoder and header set. -/
+theorem C10_unary_message_then_failure (sc : Scenario) (env : Env) (t : RespTranscoder)
+    (hn : sc.n = 1) (hi : sc.inj = .target) :
+    serveUnary sc env t = failResp .targetStatus sc.gone (some t) sc.err
+      (appendHeaders (appendHeaders [] (headerMD sc)) (trailerMD sc)) := by
+  unfold serveUnary
+  simp [hn, hi]
+
+/-- The same for a status-only answer (no message at all). -/
+theorem C10_unary_status_only (sc : Scenario) (env : Env) (t : RespTranscoder)
+    (hn : sc.n = 0) (hi : sc.inj = .target) :
+    serveUnary sc env t = failResp .targetStatus sc.gone (some t) sc.err
+      (appendHeaders (appendHeaders [] (headerMD sc)) (trailerMD sc)) := by
+  unfold serveUnary
+  simp [hn, hi]
+
+/-- A deadline that expires before the call completed — also after the response message arrived, while waiting
+    for the status — is a failure of origin `deadline` (DeadlineExceeded ⇒ 504 by `C10_table`), whatever `n` is. -/
+theorem C10_deadline_after_message (sc : Scenario) (env : Env) (t : RespTranscoder) (sse : Bool)
+    (hi : sc.inj = .deadline) :
+    serveForward sc env t sse = failResp .deadline false (some t) (deadlineErr env) [] ∧
+    wantStatus (deadlineErr env) = 504 := by
+  constructor
+  · unfold serveForward
+    simp [hi]
+  · simp [wantStatus, explicitOf, deadlineErr, convert, RawErr.direct, cDeadlineExceeded, canonicalHttp]
+
+/-- Consequently such a call is never answered with 200 + the message: end to end, a unary scenario whose target
+    fails after (or without) its message and that reaches the target has origin `targetStatus` and no success. -/
+theorem C10_unary_target_failure_is_failure (sc : Scenario) (env : Env) (t : RespTranscoder)
+    (hn : sc.n ≤ 1) (hi : sc.inj = .target) :
+    (serveUnary sc env t).origin = some .targetStatus ∧ (serveUnary sc env t).err = some sc.err := by
+  have h : serveUnary sc env t = failResp .targetStatus sc.gone (some t) sc.err
+      (appendHeaders (appendHeaders [] (headerMD sc)) (trailerMD sc)) := by
+    rcases Nat.le_one_iff_eq_zero_or_eq_one.1 hn with h0 | h1
+    · exact C10_unary_status_only sc env t h0 hi
+    · exact C10_unary_message_then_failure sc env t h1 hi
+  rw [h]
+  exact ⟨(failResp_fields _ _ _ _ _).1, (failResp_fields _ _ _ _ _).2.1⟩
+
 /-! ### headers and trailers -/
 
 /-- `ProxyMDFilter.filterResponse` + `appendHeaders`: every value of an allow-listed metadata key appears in the
